@@ -5,7 +5,7 @@ CONSTANTS
   Classes = {"MA", "MB"}
   InitStreams <- InitStreamsDef
   ApplyCfgs <- ApplyCfgsFull
-  Lifts = {"none"}
+  Lifts = {"none", "jit", "remat", "mapvars"}
   Separator = TRUE
   Hist = TRUE
 SPECIFICATION Spec
